@@ -184,6 +184,17 @@ def laws(sel, A, B, mapname, di, soup, order):
         comp_any = tuple(k for k in allx if k not in set(want_any))
         if notab_any != comp_any:
             yield ('not-list-complement-any-namespace', f'*|*:not({A}, {B})', notab_any, comp_any)
+    # the separator of a list is a comma with optional blanks AND comments around it: the laws do not depend on how the list is typed
+    for sep in (' /* c */, ', ' /**/ ,/* x, y */ ', ','):
+        ab2 = s(f'{A}{sep}{B}')
+        if ab2 != union:
+            yield ('list-union-commented', f'{A}{sep}{B}', ab2, union)
+        is2 = s(f':is({A}{sep}{B})')
+        if is2 != isab:
+            yield ('is-union-commented', f':is({A}{sep}{B})', is2, isab)
+        n2 = s(f':not({A}{sep}{B})')
+        if n2 != notab:
+            yield ('not-list-commented', f':not({A}{sep}{B})', n2, notab)
     if not set(a) <= set(ab):
         yield ('monotone', f'{A}, {B}', ab, a)
     for r in (a, ab, isab, nota):
